@@ -1,5 +1,7 @@
 import ComposeVerif.Model.C01Cycles
 import ComposeVerif.Model.C01Reset
+import ComposeVerif.Model.Unicity
+import ComposeVerif.Model.ShortTransform
 /-!
 # C01 — statements the unchanged tree falsifies (proved negations, concrete witnesses)
 
@@ -155,5 +157,55 @@ theorem resolve_output_tree_false :
     cases this
 
 end ResetWitness
+
+/-! ## "`EnforceUnicity` shields `transformKeyValue`" (round 5: the reason the site review gave for the unchecked `e.(string)`)
+
+The attempt to prove `Unicity.enforceTop v = .ok v' → Short.canonical ign v' ≠ .panic _` failed on the `[]` step:
+`enforceUnicity` does not descend into sequences, `transform` does, and both match `*` against any path step.  The three
+facts of the counterexample (`services:` as a LIST, `build.additional_contexts: [1]` in its element), with `transformKeyValue`'s
+list loop as it was before the repair (repo commit 717fb8d on branch ag5-C01) kept as a definition.
+Replayed on the real code: corpus/C01/fixed-transform-transformKeyValue.json. -/
+
+section KeyValueWitness
+open CV
+
+/-- the loop of `transformKeyValue` before the repair: `e.(string)` unchecked -/
+def preKvList (ign : Bool) : List Val → Val.KVs → Option (Short.Out Val.KVs)
+  | [], acc => some (.ok acc)
+  | .str s :: r, acc =>
+    match Short.cutAt '=' s.toList with
+    | none => if ign then none else some (.err "parse")
+    | some (k, v) => preKvList ign r (Val.insert (String.ofList k) (Short.sv v) acc)
+  | _ :: _, _ => some (.panic "transform.transformKeyValue")
+
+def kvWitness : Val :=
+  .map [("services", .seq [.map [("build", .map [("additional_contexts", .seq [.int 1])])]])]
+
+/-- the subtree at a path as the walkers name it (`[]` = an element of a sequence; here: the first) -/
+def subAt : Val → List String → Option Val
+  | v, [] => some v
+  | .map kvs, k :: r => match Val.lookup k kvs with
+    | some c => subAt c r
+    | none => none
+  | .seq (x :: _), k :: r => if k = "[]" then subAt x r else none
+  | _, _ :: _ => none
+
+/-- the full statement — in whatever `EnforceUnicity` lets through, a list found at a path that the transformer table
+sends to `transformKeyValue` does not crash its (pre-repair) loop — is false -/
+theorem unicity_shields_transformKeyValue_false :
+    ¬ (∀ (v v' : Val) (p : TPath) (l : List Val), Unicity.enforceTop v = .ok v' →
+        TPath.firstMatch CV.Gen.transformers p = some "transformKeyValue" →
+        subAt v' p = some (.seq l) →
+        ∀ ign s, preKvList ign l [] ≠ some (.panic s)) := by
+  intro h
+  have h1 : Unicity.enforceTop kvWitness = .ok kvWitness := by rfl
+  have h2 : TPath.firstMatch CV.Gen.transformers ["services", "[]", "build", "additional_contexts"] = some "transformKeyValue" := by rfl
+  have h3 : subAt kvWitness ["services", "[]", "build", "additional_contexts"] = some (.seq [.int 1]) := by rfl
+  exact h kvWitness kvWitness _ [.int 1] h1 h2 h3 false "transform.transformKeyValue" rfl
+
+/-- the same input in the repaired model: an error -/
+example : Short.canonical false kvWitness = .err "type" := by rfl
+
+end KeyValueWitness
 
 end CV.C01.Neg
